@@ -191,6 +191,19 @@ def run(ctx):
         ctx.ob("R5.spec", "typed-hash-spec|%s:%s" % (BF, ty), P.where(hi[0]),
                "hash = XXH64(plain little-endian bytes of the value, seed 0)", seed0 and plain,
                show(("call", ("func", "xxh64")) + tuple(ai)))
+        # the bytes hashed are the caller's value as given: a typed function that rewrites its value parameter before
+        # hashing (a "canonical" zero, a rounded float) makes insert and check disagree on exactly those values, and
+        # the bits stop being those of the plain-encoded value
+        from ..canon import info as _info
+        for f_, role in ((fi, "insert"), (fc, "check")):
+            if size is None:
+                continue
+            pd = f_.params[1]["d"]
+            touched = [n for n in f_.body.walk() if (is_assign(n) or (n.k == "UnaryOperator" and n.op in ("++", "--")))
+                       and n.c[0].strip().k == "DeclRefExpr" and n.c[0].strip().get("d") == pd]
+            ctx.ob("R5.spec", "typed-value-unmodified|%s:%s_%s" % (BF, role, ty), P.where(f_.body),
+                   "%s_%s hashes its value parameter as given (no store to it before the hash)" % (role, ty),
+                   not touched, "stored to at %s: `%s`" % (P.where(touched[0]), src(touched[0])[:60]) if touched else "")
         # the hash flows to *_hash with the filter
         for f, callee in ((fi, "carquet_bloom_filter_insert_hash"), (fc, "carquet_bloom_filter_check_hash")):
             cs = f.calls(callee)
